@@ -519,7 +519,13 @@ class _GenerateRenderMethod:
         if has_loop:
             self.printer.writeline("loop = __M_loop = runtime.LoopStack()")
 
-        for ident in to_write:
+        # names fetched from the context are written before the defs, as
+        # the argument defaults of a def are evaluated when it is defined
+        # and may refer to them; within each group the order is fixed, so
+        # that it does not vary with the hash seed
+        for ident in sorted(
+            to_write, key=lambda ident: (ident in comp_idents, ident)
+        ):
             if ident in comp_idents:
                 comp = comp_idents[ident]
                 if comp.is_block:
